@@ -71,7 +71,7 @@ def world_pool():
 
 
 SHAPES = ['T', 'T:A', 'T1,T2:T1', 'T1,T2:T1,T3:T2', 'T1,T2:G<T1>', 'out T1:A,T2:T1', 'in T1,T2', 'Function1',
-          'T1:A,T2:T1', 'out T1,T2']
+          'T1:A,T2:T1', 'out T1,T2', 'T1,T2:G<out T1>', 'T1,T2:G<G<in T1>>', 'T1,T2:T1,T3:T1', 'T1,T2:G<T1>,T3:T1']
 
 
 def make_params(shape, A, G):
@@ -92,6 +92,18 @@ def make_params(shape, A, G):
     if shape == 'T1,T2:G<T1>':
         t1 = tp.TypeParameter('T1')
         return [t1, tp.TypeParameter('T2', bound=G.new([t1]))]
+    if shape == 'T1,T2:G<out T1>':
+        t1 = tp.TypeParameter('T1')
+        return [t1, tp.TypeParameter('T2', bound=G.new([tp.WildCardType(t1, tp.Covariant)]))]
+    if shape == 'T1,T2:G<G<in T1>>':
+        t1 = tp.TypeParameter('T1')
+        return [t1, tp.TypeParameter('T2', bound=G.new([G.new([tp.WildCardType(t1, tp.Contravariant)])]))]
+    if shape == 'T1,T2:T1,T3:T1':
+        t1 = tp.TypeParameter('T1')
+        return [t1, tp.TypeParameter('T2', bound=t1), tp.TypeParameter('T3', bound=t1)]
+    if shape == 'T1,T2:G<T1>,T3:T1':
+        t1 = tp.TypeParameter('T1')
+        return [t1, tp.TypeParameter('T2', bound=G.new([t1])), tp.TypeParameter('T3', bound=t1)]
     if shape == 'out T1:A,T2:T1':
         t1 = tp.TypeParameter('T1', tp.Covariant, bound=A)
         return [t1, tp.TypeParameter('T2', bound=t1)]
@@ -177,7 +189,9 @@ def h_instantiate(eng, shape, api, pool_kind):
         bad = w.mentions(t, lambda x: x[0] == 'C' or x in w.primitive)
         obs.append(Ob('usable-type|%s,param=%d' % (key, i), not bad, case))
         # (b) within bound after substituting the other arguments
-        if p.bound is not None and p not in pre:     # a pre-assigned argument is the caller's responsibility
+        proj_pre = [q.name for q, v in pre.items() if isinstance(v, tp.WildCardType)]
+        if p.bound is not None and p not in pre and not (   # a pre-assigned argument is the caller's responsibility
+                proj_pre and w.mentions(w.snap(p.bound), lambda x: x[0] == 'V' and x[1] in proj_pre)):
             bterm = w.subst(w.snap(p.bound), m)
             aterm = t
             skip = False
@@ -199,7 +213,8 @@ def h_instantiate(eng, shape, api, pool_kind):
         is_proj = t[0] == 'W' and t not in [w.snap(v) for v in pre.values()]
         if is_proj:
             eng.event('projection')
-            later_mentions = any(q.has_bound_of(p) for q in params[i + 1:])
+            later_mentions = any(q.bound is not None and w.mentions(w.snap(q.bound), lambda x: x[0] == 'V' and x[1] == p.name)
+                                 for q in params[i + 1:])
             obs.append(Ob('no-projection-on-mentioned-param|%s,param=%d' % (key, i), not later_mentions,
                           dict(case, param=p.name)))
             obs.append(Ob('projection-allowed|%s,param=%d' % (key, i),
@@ -234,7 +249,8 @@ def jobs(tier):
                bounds='declared variance x {no map, no entry, entry with two solver booleans} x in_bound x both switches '
                       '(solver booleans) x every RNG draw', outside=OUT)]
     shapes = SHAPES if tier == 'thorough' else ['T:A', 'T1,T2:T1', 'T1,T2:T1,T3:T2', 'T1,T2:G<T1>', 'out T1:A,T2:T1',
-                                                'Function1']
+                                                'Function1', 'T1,T2:G<out T1>', 'T1,T2:G<G<in T1>>', 'T1,T2:T1,T3:T1',
+                                                'T1,T2:G<T1>,T3:T1']
     for shape in shapes:
         for api in ('constructor', 'function') + (('compute',) if tier == 'thorough' else ()):
             for pool_kind in (('classes', 'mixed', 'generic') if tier == 'thorough' else ('mixed',)):
